@@ -229,7 +229,7 @@ class Mapper:
                 self.finished(n, i)
                 self.emit(n, xl(xn(12), xn(i), xn(self.widx.get((i, kind), 99))), 1)
                 continue
-            if name in ("h.serves", "h.executed", "ex.bind", "sh.enter", "co.start", "ct.start", "hx.resp"):
+            if name in ("h.serves", "h.executed", "h.lsn", "ex.bind", "sh.enter", "co.start", "ct.start", "hx.resp"):
                 if name == "co.start":
                     # the task of the oldest not yet started connection with this peer port (the same client port may be
                     # connected to two ports at once; two such tasks are in the same state, so either choice is a trace)
@@ -432,6 +432,7 @@ def analyse(c, i):
     gap = None
     order = None
     told = None
+    kernel = None
     everb = {}
     t_set, t_told, t_fin, t_hstart = {}, {}, {}, {}
     reqs = {}          # peer port -> [(time, instance)] of requests read by an instance
@@ -459,13 +460,18 @@ def analyse(c, i):
             t_fin.setdefault(inst, t)
         elif name == "hx.req":
             reqs.setdefault(val, []).append((t, inst))
+        elif name == "h.lsn":
+            ix, cnt = val // 1000, val % 1000
+            if inst >= 1 and val >= 0 and cnt < 2 * per_port and kernel is None:
+                kernel = ("when instance %d was about to tell its predecessor to shut down (%d us) the kernel had %d socket(s) in LISTEN state "
+                          "on port %d; the predecessor's and its own are %d" % (inst, t, cnt, r["ports"][ix], 2 * per_port))
         if not seen_first and all(any(v > 0 for v in bound[p].values()) for p in r["ports"]):
             seen_first = True
         if seen_first and gap is None:
             for p in r["ports"]:
                 if not any(v > 0 for v in bound[p].values()):
                     gap = "port %d: no instance has a listening socket after event %d (%s of instance %d at %d us)" % (p, n, name, inst, t)
-    an.update(gap=gap, order=order, told=told, t_set=t_set, t_told=t_told, t_fin=t_fin, t_hstart=t_hstart)
+    an.update(gap=gap, order=order, told=told, kernel=kernel, t_set=t_set, t_told=t_told, t_fin=t_fin, t_hstart=t_hstart)
     # -- the clients' ledger --
     m = Mapper(r["ports"], per_port)
     entries = m.run(ev)
@@ -530,7 +536,7 @@ def summary(c, an):
     """the run in the shape of the model's prediction"""
     r = an["r"]
     k = c.meta["k"]
-    ok = 1 if (an["gap"] is None and an["order"] is None and an["told"] is None) else 0
+    ok = 1 if (an["gap"] is None and an["order"] is None and an["told"] is None and an["kernel"] is None) else 0
     waits = r["waited"][:k] if len(r["waited"]) >= k else r["waited"]
     ids = [p[P_ID] for p in r["probes"] if p[P_OUT] == 0]
     who = (ids[-1] + 1) if ids else 0
@@ -603,6 +609,8 @@ def complaints(c, i):
     for what in ("gap", "order", "told"):
         if an[what]:
             why.append((False, "hook log: " + an[what]))
+    if an["kernel"]:
+        why.append((False, "/proc/net/tcp: " + an["kernel"]))
     if len(r["executed"]) != k + 1 or not all(r["executed"]):
         why.append((True, "execute() of an instance did not return: %s" % r["executed"]))
     for h, t in enumerate(r["timings"]):
@@ -863,7 +871,8 @@ RULE = ("Chains of 1-5 handovers between real servers in one process (RunConfig:
         "connection after the server closed it is not one; the answer names the accepting instance; on one connection an instance answers at "
         "most one request sent after it set its shutdown flag; an idle connection is closed by the server; from the listen/close hook events "
         "every port has a listening socket of some instance at every moment, no listener is closed and no instance is told before the successor "
-        "has every socket listening; execute() returns; all three wait() calls of every predecessor resolve (the first within slow handler + "
+        "has every socket listening, and by the kernel's socket table (/proc/net/tcp, read when the successor is about to send the handover "
+        "message) the predecessor's and the successor's sockets on every port are in LISTEN state; execute() returns; all three wait() calls of every predecessor resolve (the first within slow handler + "
         "15 s, the others within 5 s of it); the control socket is answered by instances in increasing order, finally by the newest, and from "
         "an instance's first answer until it is told by that instance and nobody else at every probe (no NotFound, no Error); the ports refuse "
         "after the last shutdown; (b) trace inclusion: the log, mapped to labels with the program counter each hook reported, is accepted "
